@@ -190,8 +190,9 @@ def hseeds(res, tier, only=None):
 
 # ---------------------------------------------------------------- histories
 def hhist(res, tier, firsts, in_child, only=None):
-    """For every H in firsts: a process that has checked nothing checks H and then the whole corpus in order (H = -1: the corpus in order,
-    H = -2: in reverse order) on shared Checkers; every rendering must equal the baseline = the program checked as the first one of a process."""
+    """For every r in firsts: a process that has checked nothing checks the whole corpus on shared Checkers, starting at program r and wrapping around
+    (r = -1: from the first program, r = -2: the corpus in reverse order); every rendering must equal the baseline = the program checked as the first
+    one of a process.  With a start at every 12th program each program is among the first twelve writers of the caches in one history."""
     import pa.run  # noqa: F401
     H = hcorpus()
     cache = {}
@@ -207,10 +208,8 @@ def hhist(res, tier, firsts, in_child, only=None):
     res.transitions += len(base)
 
     def run(first):
-        order = idx[::-1] if first == -2 else idx
+        order = idx[::-1] if first == -2 else (idx[first:] + idx[:first] if first >= 0 else idx)
         out = {}
-        if first >= 0:
-            one(first)
         for pi in order:
             r = one(pi)
             if r != base.get(pi, r):
@@ -230,6 +229,6 @@ def hhist(res, tier, firsts, in_child, only=None):
                 continue
             res.violation({"kind": "h-history-dependent-output", "program": H[pi][0], "what": diff_kind(base[pi], got)},
                           {"mode": "hhist", "first": first, "prog": pi, "order": 4 * 10 ** 9 + (first + 2) * 1000 + pi},
-                          "after the history [%s, then the corpus %s up to it] on shared Checkers, test-suite program %s renders differently than as the first program of a process:\n%s"
-                          % ("-" if first < 0 else H[first][0], "in reverse order" if first == -2 else "in order", H[pi][0], show_diff(base[pi], got)))
+                          "after the history [the corpus %s up to it] on shared Checkers, test-suite program %s renders differently than as the first program of a process:\n%s"
+                          % ("in reverse order" if first == -2 else ("in order" if first < 0 else "in order starting at %s and wrapping around" % H[first][0]), H[pi][0], show_diff(base[pi], got)))
     res.sample({"history_firsts": list(firsts)[:5], "harvested_programs": len(H)})
